@@ -17,7 +17,7 @@ for ob in ctx.obligations.values():
             for p in ob.pc: s.add(p)
             s.add(z3.Not(ob.goal))
             t1=time.time(); r = s.check(); print(cfg, r, round(time.time()-t1,2), s.reason_unknown() if r==z3.unknown else "")
-        if os.environ.get("DUMP"):
+        if os.environ.get("DUMP") and r != z3.unsat:
             for p in ob.pc: print("  PC:", p)
             print("  GOAL:", ob.goal)
-        break
+            break
